@@ -107,3 +107,10 @@ from contracts.share import shared  # noqa: E402
 UNITS += shared("C10", "contracts.c06", 'ArgumentParser.validate.<locals>.check_values')
 UNITS += shared("C10", "contracts.c04", 'ArgumentParser.parse_object')
 UNITS += shared("C10", "contracts.c20", "RegisteredType.is_value_of_type")
+
+
+# merging a later source over an earlier one (merge_config) drops the init_args of a replaced class first: without it the merged result does not re-parse
+from contracts.discard_walk import discard_walk_unit  # noqa: E402
+UNITS.append(discard_walk_unit("C10"))
+from contracts.adapt_arms import dataclass_unit  # noqa: E402
+UNITS.append(dataclass_unit("C10"))
